@@ -509,6 +509,10 @@ retry_peek:
 	if (result >= sizeof(struct qb_ipc_request_header)) {
 		struct qb_ipc_request_header *hdr = NULL;
 		hdr = (struct qb_ipc_request_header *)msg;
+		if (hdr->size < 0 || (size_t)hdr->size > len) {
+			final_rc = -EMSGSIZE;
+			goto cleanup_sigpipe;
+		}
 		to_recv = hdr->size;
 	}
 
